@@ -61,7 +61,47 @@ func GenerateReturns(t *rapid.T, use func(string) bool) *Program {
 			}
 		case "literal":
 			ft := &Type{K: KFn, Params: []*Type{i32, i32, e}, Ret: i32}
-			mainBody = append(mainBody, &Let{Name: name, T: ft, Infer: true, Init: &FnLit{T: ft, Params: []string{"a", "b", "e"}, Body: body}})
+			lit := &FnLit{T: ft, Params: []string{"a", "b", "e"}, Body: body}
+			// where the literal stands: directly in main, inside other function literals, inside a
+			// function or method (possibly in a loop body there)
+			place := g.intRange(0, 5, "litplace")
+			if place > 0 && !g.use("returns.function_literal_nested") {
+				place = 0
+			}
+			host := func(depth int) []Stmt {
+				in := g.fresh("in")
+				call := &Return{X: &Call{T: i32, Fn: in, Args: []Expr{&Var{T: i32, Name: "x"}, &Var{T: i32, Name: "y"}, &Var{T: e, Name: "z"}}}}
+				inner := []Stmt{&Let{Name: in, T: ft, Infer: true, Init: lit}, call}
+				for d := 1; d < depth; d++ {
+					// one more function literal around it
+					mid := g.fresh("in")
+					inner = []Stmt{&Let{Name: mid, T: ft, Infer: true, Init: &FnLit{T: ft, Params: []string{"x", "y", "z"}, Body: inner}},
+						&Return{X: &Call{T: i32, Fn: mid, Args: []Expr{&Var{T: i32, Name: "x"}, &Var{T: i32, Name: "y"}, &Var{T: e, Name: "z"}}}}}
+				}
+				return inner
+			}
+			hostParams := []Param{{Name: "x", T: i32}, {Name: "y", T: i32}, {Name: "z", T: e}}
+			switch place {
+			case 1, 2: // inside one or two enclosing function literals
+				mainBody = append(mainBody, &Let{Name: name, T: ft, Infer: true, Init: &FnLit{T: ft, Params: []string{"x", "y", "z"}, Body: host(place)}})
+			case 3: // inside a function
+				g.p.Funcs = append(g.p.Funcs, &Func{Name: name, Params: hostParams, Ret: i32, Body: host(g.intRange(1, 2, "hostdepth"))})
+			case 4: // inside a loop body of a function
+				q := g.fresh("q")
+				g.p.Funcs = append(g.p.Funcs, &Func{Name: name, Params: hostParams, Ret: i32, Body: []Stmt{
+					&ForRange{Var: q, T: i32, Lo: &Lit{T: i32, I: big.NewInt(0)}, Hi: &Lit{T: i32, I: big.NewInt(2)}, Body: host(1)},
+					&Return{X: &Lit{T: i32, I: big.NewInt(-77)}}}})
+			case 5: // inside a method
+				g.p.Funcs = append(g.p.Funcs, &Func{Name: name, Recv: &Param{Name: "s", T: &Type{K: KRef, Elem: st}}, Params: hostParams, Ret: i32, Body: host(g.intRange(1, 2, "hostdepth"))})
+				recv := g.fresh("p")
+				mainBody = append(mainBody, &Let{Name: recv, T: st, Init: &StructLit{T: st, Fields: []Expr{&Lit{T: i32, I: big.NewInt(1)}}}})
+				for i := 0; i < ncalls; i++ {
+					mainBody = append(mainBody, &Print{Args: []Expr{&MethodCall{T: i32, Recv: &Var{T: st, Name: recv}, Name: name, Args: argsFor(i)}}})
+				}
+				continue
+			default:
+				mainBody = append(mainBody, &Let{Name: name, T: ft, Infer: true, Init: lit})
+			}
 			for i := 0; i < ncalls; i++ {
 				r := g.fresh("r")
 				mainBody = append(mainBody, &Let{Name: r, T: i32, Init: &Call{T: i32, Fn: name, Args: argsFor(i)}}, &Print{Args: []Expr{&Var{T: i32, Name: r}}})
